@@ -49,4 +49,91 @@ Proof.
   - apply (coo_spmv_append_neg_T_spec _ _ _ _ _ _ _ Fth); assumption.
 Qed.
 
+
+(* what the expansion represents: position (I*br + r, J*bc + c) of the scalar operator is the sum, over the stored
+   blocks at block position (I, J), of the blocks' entry (r, c) (row-major) — duplicates of a block position add up *)
+Add Ring FringB : Fth.
+
+Lemma sumF_filter_ite {A} (p : A -> bool) (f : A -> F) l :
+  sumf F zero add (map f (filter p l)) = sumf F zero add (map (fun a => if p a then f a else zero) l).
+Proof.
+  induction l as [|a l IH]; simpl; [reflexivity|].
+  destruct (p a); simpl; rewrite IH; [reflexivity|ring].
+Qed.
+
+Lemma divmod_eq br I I' r r' : r < br -> r' < br -> (I' * br + r' =? I * br + r) = (I' =? I) && (r' =? r).
+Proof.
+  intros Hr Hr'.
+  destruct (Nat.eqb_spec I' I) as [->|Hne]; simpl.
+  - destruct (Nat.eqb_spec r' r) as [->|Hn]; [apply Nat.eqb_refl|apply Nat.eqb_neq; lia].
+  - apply Nat.eqb_neq. intro H. apply Hne. nia.
+Qed.
+
+Lemma expand_ent_den br bc (e : ent (list F)) I J r c : r < br -> c < bc ->
+  sumf F zero add (map (@eval F) (filter (fun x => (erow x =? I * br + r) && (ecol x =? J * bc + c)) (expand_ent zero br bc e)))
+  = if (erow e =? I) && (ecol e =? J) then nth (r * bc + c) (eval e) zero else zero.
+Proof.
+  intros Hr Hc. rewrite sumF_filter_ite. unfold expand_ent.
+  rewrite flat_map_concat_map, concat_map, map_map.
+  change (sumf F zero add (concat (map (fun x => map (fun a => if (erow a =? I * br + r) && (ecol a =? J * bc + c) then eval a else zero)
+           (map (fun c0 => (erow e * br + x, ecol e * bc + c0, nth (x * bc + c0) (eval e) zero)) (seq 0 bc))) (seq 0 br)))
+          = if (erow e =? I) && (ecol e =? J) then nth (r * bc + c) (eval e) zero else zero).
+  rewrite <- flat_map_concat_map, (sumf_flat_map F zero one add mul sub opp Fth).
+  rewrite (sumf_single F zero one add mul sub opp Fth br r); [|exact Hr|].
+  2:{ intros i Hi Hne. rewrite map_map. unfold erow, ecol, eval; simpl.
+      transitivity (sumf F zero add (map (fun _ : nat => zero) (seq 0 bc)));
+        [|apply (sumf_map_zero F zero one add mul sub opp Fth)].
+      apply (sumf_map_ext F zero add). intros c0 Hc0. apply in_seq in Hc0.
+      rewrite (divmod_eq br I (fst (fst e)) r i) by lia.
+      replace (i =? r) with false by (symmetry; apply Nat.eqb_neq; exact Hne).
+      rewrite andb_false_r. reflexivity. }
+  rewrite map_map. unfold erow, ecol, eval; simpl.
+  rewrite (sumf_single F zero one add mul sub opp Fth bc c); [|exact Hc|].
+  2:{ intros j Hj Hne. simpl.
+      rewrite (divmod_eq bc J (snd (fst e)) c j) by lia.
+      replace (j =? c) with false by (symmetry; apply Nat.eqb_neq; exact Hne).
+      rewrite !andb_false_r. reflexivity. }
+  rewrite (divmod_eq br I (fst (fst e)) r r), (divmod_eq bc J (snd (fst e)) c c) by lia.
+  rewrite !Nat.eqb_refl, !andb_true_r. reflexivity.
+Qed.
+
+Theorem bcoo_expand_den br bc (A : coo (list F)) I J r c : r < br -> c < bc ->
+  den_coo F zero add (bcoo_expand zero br bc A) (I * br + r) (J * bc + c)
+  = sumf F zero add (map (fun e => nth (r * bc + c) (eval e) zero)
+                         (filter (fun e => (erow e =? I) && (ecol e =? J)) (coo_ents A))).
+Proof.
+  intros Hr Hc. unfold den_coo, bcoo_expand; simpl.
+  induction (coo_ents A) as [|e l IH]; simpl; [reflexivity|].
+  rewrite filter_app, map_app, (sumf_app F zero one add mul sub opp Fth), IH, (expand_ent_den br bc e I J r c Hr Hc).
+  destruct ((erow e =? I) && (ecol e =? J)); simpl; [reflexivity|ring].
+Qed.
+
+
+(* BSR_to_CSR drops scalars with |v| <= zero_tol; when every dropped scalar is an exact zero (no stored value in
+   (0, zero_tol]) the CSR result represents the same operator as the blocks *)
+Lemma den_filter_big (big : F -> bool) (l : list (ent F)) i j :
+  (forall e, In e l -> big (eval e) = false -> eval e = zero) ->
+  sumf F zero add (map (@eval F) (filter (fun e => (erow e =? i) && (ecol e =? j)) (filter (fun e => big (eval e)) l)))
+  = sumf F zero add (map (@eval F) (filter (fun e => (erow e =? i) && (ecol e =? j)) l)).
+Proof.
+  induction l as [|e l IH]; intros H; simpl; [reflexivity|].
+  assert (IH' := IH (fun e' He' => H e' (or_intror He'))).
+  destruct (big (eval e)) eqn:Eb; simpl.
+  - destruct ((erow e =? i) && (ecol e =? j)); simpl; rewrite IH'; reflexivity.
+  - destruct ((erow e =? i) && (ecol e =? j)); simpl; rewrite IH'; [|reflexivity].
+    rewrite (H e (or_introl eq_refl) Eb). ring.
+Qed.
+
+Theorem bsr_to_csr_den (big : F -> bool) br bc (A : csr (list F)) i j :
+  csr_wf A ->
+  (forall e, In e (coo_ents (bsr_expand zero br bc A)) -> big (eval e) = false -> eval e = zero) ->
+  den_csr F zero add (bsr_to_csr zero big br bc A) i j = den_coo F zero add (bsr_expand zero br bc A) i j.
+Proof.
+  intros Hwf Hz. unfold bsr_to_csr.
+  rewrite (den_coo_to_csr F zero add).
+  - unfold den_coo; simpl. apply den_filter_big. exact Hz.
+  - intros e He; simpl in *. apply filter_In in He. destruct He as [He _].
+    exact (bcoo_expand_wf br bc (csr_to_coo A) (csr_to_coo_wf _ A Hwf) e He).
+Qed.
+
 End BlockProofs.
